@@ -409,7 +409,21 @@ func (g *gctx) malformV2(doc map[string]any) string {
 func (g *gctx) malformV1(doc map[string]any) string {
 	r := g.r
 	def, _ := doc["default_config"].(map[string]any)
-	switch r.Intn(6) {
+	switch r.Intn(8) {
+	case 6:
+		def["fee_recipient"] = []string{"0x1234", "0x11111111111111111111111111111111111111", "0x111111111111111111111111111111111111111122"}[r.Intn(3)]
+		return "v1-fee-length"
+	case 7:
+		if pcs, ok := doc["proposer_config"].(map[string]any); ok {
+			for _, v := range pcs {
+				if m, ok := v.(map[string]any); ok {
+					m["fee_recipient"] = "0x" + strings.Repeat("22", 19)
+					return "v1-fee-length"
+				}
+			}
+		}
+		def["fee_recipient"] = "0xzz11111111111111111111111111111111111111"
+		return "v1-fee-hex"
 	case 0:
 		delete(doc, "default_config")
 		return "v1-default-missing"
